@@ -654,8 +654,11 @@ impl CircuitBuilder {
     }
 
     pub fn push_panic_if(&mut self, cond: GateIndex, reason: PanicReason, meta: MetaInfo) {
-        if let Some(existing_panic) = self.panic_gates.cache.get(&cond) {
-            self.panic_gates.result = existing_panic.clone();
+        if self.panic_gates.cache.contains_key(&cond) {
+            // `cond` was already recorded on every path leading here (the cache only holds
+            // conditions that are part of the current record, see `mux_panic`), so the record
+            // already panics whenever `cond` holds and the earlier location wins. Resetting the
+            // record to the cached snapshot would drop every panic recorded since then.
             return;
         }
         let already_panicked = self.panic_gates.result.has_panicked;
@@ -724,16 +727,14 @@ impl CircuitBuilder {
         }: &CachedPanicResult,
     ) -> CachedPanicResult {
         let result = self.mux_uncached_panic(condition, t, f);
+        // Only conditions recorded in *both* branches are part of the merged record on every
+        // path; a condition seen in one branch only must be pushed again when it reappears
+        // (otherwise a panic of the untaken branch leaks, or a later panic is lost). No gates are
+        // emitted here, so the circuit does not depend on the hash map's iteration order.
         let mut cache = HashMap::new();
-        for k in cache_t.keys().chain(cache_f.keys()) {
-            match (cache_t.get(k), cache_f.get(k)) {
-                (None, None) => {}
-                (None, Some(result)) | (Some(result), None) => {
-                    cache.insert(*k, result.clone());
-                }
-                (Some(t), Some(f)) => {
-                    cache.insert(*k, self.mux_uncached_panic(condition, t, f));
-                }
+        for (k, t) in cache_t.iter() {
+            if cache_f.contains_key(k) {
+                cache.insert(*k, t.clone());
             }
         }
         CachedPanicResult { result, cache }
